@@ -12,8 +12,8 @@
 (*    of exp - ah - Need(k), a recorded accept time only through the age of *)
 (*    a pending timer;                                                      *)
 (*  - circuit keys are interchangeable unless an AMP invoice is present     *)
-(*    (AMP set membership names circuits): the HTLC table is viewed as a    *)
-(*    bag of records.                                                       *)
+(*    (AMP set membership names circuits; then only the members of s1 are   *)
+(*    interchangeable): the HTLC table is viewed as a bag of records.       *)
 EXTENDS InvoiceRegistry
 CONSTANT MaxEvents          \* bound on the length of the event sequences (0 = unbounded: full closure)
 VARIABLE nev
@@ -23,7 +23,7 @@ MarginOK(c) == IF htlc[c] = NoHtlc THEN 0
 Age(c) == IF c \in timer THEN now - htlc[c].at ELSE 0
 Rec(c) == [r |-> [htlc[c] EXCEPT !.exp = MarginOK(c), !.ah = 0, !.at = Age(c)],
            s |-> c \in sub, t |-> c \in timer,
-           c |-> IF HasKind("amp") THEN c ELSE 0]
+           c |-> IF ~HasKind("amp") THEN 0 ELSE IF c \in Members("s1") THEN 1 ELSE c]
 Bag == {<<x, Cardinality({c \in C : Rec(c) = x})>> : x \in {Rec(c) : c \in C}}
 \* (the last component is constant; comparing a function with itself makes TLC materialise the lazily
 \*  built function values of the state, which it otherwise fails to write when the queue spills to disk)
